@@ -4,6 +4,7 @@ import (
 	"errors"
 	"fmt"
 
+	"github.com/nspcc-dev/neofs-node/pkg/util/verifhook"
 	apistatus "github.com/nspcc-dev/neofs-sdk-go/client/status"
 	"github.com/nspcc-dev/neofs-sdk-go/object"
 	"go.uber.org/zap"
@@ -57,11 +58,15 @@ func (s *Shard) Put(obj *object.Object, objBin []byte) error {
 		logOp(s.log, putOp, addr)
 	}
 
+	verifhook.Point("shard.put.afterData")
+
 	if !m.NoMetabase() {
 		diff, metaErr := s.metaBase.PutCounted(obj)
+		verifhook.Point("shard.put.afterMeta")
 		if metaErr != nil {
 			if cachedPut {
 				var err = s.writeCache.Delete(addr)
+				verifhook.Point("shard.put.rollbackCache")
 				if err != nil && !errors.Is(err, apistatus.ErrObjectNotFound) {
 					s.log.Warn("can't drop object from write cache on meta put failure",
 						zap.Stringer("addr", addr), zap.Error(err))
@@ -70,6 +75,7 @@ func (s *Shard) Put(obj *object.Object, objBin []byte) error {
 			// Always delete from blobstor, write cache
 			// might have flushed it already.
 			var err = s.blobStor.Delete(addr)
+			verifhook.Point("shard.put.rollbackBlob")
 			if err != nil && !errors.Is(err, apistatus.ErrObjectNotFound) {
 				s.log.Warn("can't drop object from blobstor on meta put failure",
 					zap.Stringer("addr", addr), zap.Error(err))
